@@ -511,7 +511,7 @@ impl Runner {
             };
             cmd.arg("strace").arg("-f").arg("-o").arg("/dev/null").arg("-e").arg(format!("trace={}", f.syscall)).arg("-e").arg(format!("inject={}:error={}:when={}", f.syscall, f.error, f.when)).arg("-P").arg(path);
         }
-        if let Some((_, cpus)) = extra_env.iter().find(|(k, _)| k == "SYLT_SIM_CPUS") {
+        if let Some(cpus) = extra_env.iter().find(|(k, _)| k == "SYLT_SIM_CPUS").and_then(|(_, n)| cpu_set(n)) {
             cmd.arg("taskset").arg("-c").arg(cpus);
         }
         cmd.arg("prlimit").arg("--as=4294967296").arg(&self.bin).args(&args);
@@ -1254,10 +1254,45 @@ pub fn replay(doc: &J, id: &str) -> i32 {
 // ------------------------------------------------------------------------------------
 // C16 at the process level: unseeded hashing (real entropy per process), environment, cwd
 
+/// The CPUs this process may run on (`Cpus_allowed_list` of /proc/self/status), narrowed to the first one or two.
+/// None when the list cannot be read or `taskset` does not work here: the process then runs unpinned.
+pub fn cpu_set(which: &str) -> Option<String> {
+    static SETS: std::sync::OnceLock<Option<(String, String)>> = std::sync::OnceLock::new();
+    let sets = SETS.get_or_init(|| {
+        let status = std::fs::read_to_string("/proc/self/status").ok()?;
+        let list = status.lines().find_map(|l| l.strip_prefix("Cpus_allowed_list:"))?.trim().to_string();
+        let mut cpus: Vec<u32> = Vec::new();
+        for part in list.split(',') {
+            let mut it = part.trim().splitn(2, '-');
+            let a: u32 = it.next()?.parse().ok()?;
+            let b: u32 = match it.next() {
+                Some(b) => b.parse().ok()?,
+                None => a,
+            };
+            for c in a..=b.min(a + 4096) {
+                cpus.push(c);
+            }
+        }
+        let one = cpus.first()?.to_string();
+        let two = match cpus.get(1) {
+            Some(c) => format!("{},{}", one, c),
+            None => one.clone(),
+        };
+        for s in [&one, &two] {
+            let ok = Command::new("taskset").arg("-c").arg(s).arg("true").stdin(Stdio::null()).stdout(Stdio::null()).stderr(Stdio::null()).status().map(|s| s.success()).unwrap_or(false);
+            if !ok {
+                return None;
+            }
+        }
+        Some((one, two))
+    });
+    sets.as_ref().map(|(one, two)| if which == "first" { one.clone() } else { two.clone() })
+}
+
 const ENVS: &[&[(&str, &str)]] = &[
     &[],
-    &[("TMPDIR", "/nonexistent-tmpdir-zz"), ("SYLT_SIM_CPUS", "0")],
-    &[("TMPDIR", "/dev/shm"), ("SYLT_SIM_CPUS", "0,1")],
+    &[("TMPDIR", "/nonexistent-tmpdir-zz"), ("SYLT_SIM_CPUS", "first")],
+    &[("TMPDIR", "/dev/shm"), ("SYLT_SIM_CPUS", "first-two")],
     &[("SYLT_SIM_CLOCK_OFFSET", "86400"), ("SYLT_SIM_SOURCE_MTIME", "978307200")],
     &[("SYLT_SIM_CLOCK_OFFSET", "1000000000"), ("TZ", "Asia/Kathmandu")],
     &[("SYLT_SIM_CLOCK_OFFSET", "-1500000000"), ("SYLT_SIM_SOURCE_MTIME", "2147483000")],
